@@ -4,13 +4,13 @@ namespace Generated.CallbackSites
 
 /-- functions that call a callback object directly (`X._constructor(…)`, or in `_graph.py` a call of
     one of their own parameters) -/
-def invokers : List String := ["spox._graph.Graph._reconstruct", "spox._graph._trace"]
+def invokers : List String := ["spox._graph.Graph._reconstruct", "spox._graph.subgraph"]
 
 /-- functions that call `._reconstruct(…)` -/
-def reconstructCallers : List String := []
+def reconstructCallers : List String := ["spox._graph.Graph.with_arguments"]
 
 /-- functions that read `._constructor` (attribute load or getattr) -/
-def constructorReaders : List String := ["spox._graph.Graph._reconstruct"]
+def constructorReaders : List String := ["spox._graph.Graph._reconstruct", "spox._graph.Graph.with_arguments"]
 
 /-- (module, function) of every function that calls `subgraph(…)` -/
 def subgraphCallers : List (String × String) :=
